@@ -119,4 +119,25 @@ CHECKS.update({
         'note': COMMON_NOTE + 'Nesting depth beyond the recursion limit is assumption A8.',
     },
 })
+CHECKS.update({
+    'C02': {
+        'text': 'All 2^14 presence patterns are ONE symbolic family: an optional attribute is set_j ? value_j : None, the encoding of '
+                'property j a conditional chunk. BasicProperties.marshal / unmarshal are verified with index-dependent loop invariants '
+                '(28 + 28 cut paths), ContentHeader.{__init__, marshal, _get_flags, unmarshal} and the frame-level encoders / decoders '
+                'against the grammar; two ghost lemmas compose them: decode(encode(h, ch) ++ rest) returns the length, channel, class id '
+                '60, body size and, per property, the value iff it was set (non-None, non-empty string), else None / empty cluster id; '
+                'encode(Norm(h)) == encode(h).',
+        'design_ref': 'DESIGN.md 4 C02',
+        'note': COMMON_NOTE + 'Assumed and decided elsewhere: the table round trip for the headers table (C03 cone), timestamp library '
+                'contracts (A5, C15). Header with three or more flag words: outside the grammar clause.',
+    },
+    'C08': {
+        'text': 'Termination and progress as contract clauses: every loop on the decode path is either over a concrete list (unrolled / '
+                'cut per index) or carries a variant that is bounded below and strictly decreases (ContentHeader._get_flags: '
+                'len(data) - consumed); total contracts over ARBITRARY octets for every decoder mean no input is outside the analysis.',
+        'design_ref': 'DESIGN.md 4 C08, 6',
+        'note': COMMON_NOTE + 'Decided: termination, per-iteration progress, closed exception sets. NOT decided by contracts: wall-clock '
+                'bounds and resident memory (I6); they are argued from the step structure only. Field-table / array decoder loops: C03 cone.',
+    },
+})
 NOT_APPLICABLE = {}
